@@ -382,7 +382,7 @@ Next == \/ \E s \in MW.sites :
                  \E c \in SubSites \cup Leaves : AddSite(s, p, c)
         \/ \E s \in MW.sites :
               \E p \in RegPaths \cap (DOMAIN st.res[s] \cup DOMAIN st.sub[s]) : Remove(s, p)
-        \/ \E p \in ReqPaths, q \in ModelQueries : Request(p, q)
+        \/ \E p \in (IF ReAsk # {} THEN ReAsk ELSE ReqPaths), q \in ModelQueries : Request(p, q)
         \/ \E f \in ModelFilters \cup {NoFilter} : Discover(f)
 
 Spec == Init /\ [][Next]_vars
